@@ -12,13 +12,16 @@ DEMO=""
 [ -f "$D/demo_test.rs" ] && DEMO="$D/demo_test.rs"
 FEAT=""
 grep -q test_phf "$D/meta.json" 2>/dev/null && FEAT="--features test_phf"
+# a demonstration that only fails in a release build says so in its meta.json
+REL=""
+grep -q -- "--release" "$D/meta.json" 2>/dev/null && REL="--release"
 DEMODIR=""
 [ -d "$D/demo_crate" ] && DEMODIR="$D/demo_crate"
 [ -d "$D/demo" ] && DEMODIR="$D/demo"
 run_demo() {
   if [ -n "$DEMO" ]; then
     cp "$DEMO" $WT/strum_tests/tests/demo_test.rs
-    (cd $WT && timeout 900 cargo test --offline -p strum_tests $FEAT --test demo_test >$WT.demo.log 2>&1); r=$?
+    (cd $WT && timeout 900 cargo test --offline $REL -p strum_tests $FEAT --test demo_test >$WT.demo.log 2>&1); r=$?
     rm -f $WT/strum_tests/tests/demo_test.rs
     return $r
   fi
@@ -30,7 +33,7 @@ run_demo() {
       (cd $WT/demo_x && sed -i -E "s#/tmp/mut/C[0-9]+/#$WT/#g" run.sh && CARGO_TARGET_DIR=$WT/target/demo_x timeout 900 sh run.sh >$WT.demo.log 2>&1); r=$?
       tail -2 $WT.demo.log
     else
-      (cd $WT/demo_x && CARGO_TARGET_DIR=$WT/target/demo_x timeout 900 cargo build --offline >$WT.demo.log 2>&1); r=$?
+      (cd $WT/demo_x && CARGO_TARGET_DIR=$WT/target/demo_x timeout 900 cargo build --offline $REL >$WT.demo.log 2>&1); r=$?
     fi
     rm -rf $WT/demo_x
     return $r
